@@ -46,7 +46,7 @@ class A(Adapter):
                 ("toy_rot", 2, 2, False)]
         if tier != "quick":
             rows += [("random", 3, 2, False), ("toy_norot", 2, 2, True), ("random", 1, 3, True), ("random", 2, 2, True),
-                     ("random", 3, 4, False), ("random", 4, 4, True), ("random", 5, 5, True)]
+                     ("random", 3, 4, False), ("random", 4, 4, True)]
         out = []
         # generator-only configurations (C10): more rows of blocks than columns and vice versa, >= 3 rows of blocks
         c10_only = [("random", 3, 2, False), ("random", 2, 4, False)]
